@@ -354,6 +354,70 @@ def job_refl_guard(job, seed):
     return {'obligations': obs, 'candidates': cands, 'paths': len(paths)}
 
 
+def job_alias(job, seed):
+    """Arguments already in the units the code converts to internally (all-SI input: beams in m, gravity in m/s^2 and the
+    wavelength in m, or the unit the drop formula derives for other beam units): copy=False conversions then hand back the
+    caller's own variables, and no in-place step may reach them.  Both entry points, perpendicular and tilted beam."""
+    entry, geometry, beam_unit = job
+    import numpy as np
+    from symex import core as C
+    from symex import loader
+    from symsc import variable as V
+    from .symutil import fresh_run, sym_scalar, sym_vector, vec, vcross, vnorm2
+
+    sc = loader.install_shim()
+    bl = loader.load('conversion.beamline')
+    fresh_run()
+    obs, cands = [], []
+    tag = f'alias[{entry}, {geometry} beam, beams in {beam_unit}]'
+    case = {'kind': 'alias', 'entry': entry, 'geometry': geometry, 'beam_unit': beam_unit}
+    g = sym_vector('g', 'm/s**2')
+    b2 = sym_vector('b2', beam_unit)
+    if geometry == 'perpendicular':
+        w_ = [C.sym_var(f'w_{c}') for c in 'xyz']
+        cr = vcross(vec(g), w_)
+        a = np.empty((3,), dtype=object)
+        for i in range(3):
+            a[i] = cr[i]
+        b1 = V.Variable(_arr=a, dims=(), unit=V.parse_unit(beam_unit), dtype=V.DType.vector3)
+    else:
+        b1 = sym_vector('b1', beam_unit)
+    for v in (b1, b2, g):
+        n = C.rsqrt(vnorm2(vec(v)), nonneg=True)
+        C.CTX.assume(n > 0)
+        C.CTX.assume_nonzero(n)
+    # the unit in which lambda^2 * const * L^2 comes out in the unit of L: sqrt(1 / (unit(L) * unit(const)))
+    lam_unit = {'m': 'm', 'cm': '10*m'}[beam_unit]
+    f = getattr(bl, entry)
+    ran = False
+    for dt in ('float64', 'float32'):
+        lam = sym_scalar('lam', V.parse_unit(lam_unit), dt, sign='0+')
+        args = dict(incident_beam=b1, scattered_beam=b2, wavelength=lam, gravity=g)
+        snap = {k: [x for x in v._a.reshape(-1)] for k, v in args.items()}
+        units = {k: v.unit for k, v in args.items()}
+        V.WRITE_LOG.clear()
+        C.CTX.fork_timeout_ms = 3000
+        real_tt = bl.two_theta
+        if geometry == 'tilted':
+            # two_theta works on temporaries it derives itself (its own no-write obligations are C03 / C09): a recorder here
+            bl.two_theta = lambda *, incident_beam, scattered_beam: sc.scalar(C.sym_var('ANGLE'), unit='rad', dtype=dt)
+        try:
+            paths = C.explore(lambda: f(**args), max_paths=12)
+        finally:
+            bl.two_theta = real_tt
+        written = {b.id for b in V.WRITE_LOG}
+        for k, v in args.items():
+            same = C.B.const(v.unit == units[k]) & C.all_of([C.R.lift(x) == C.R.lift(y) for x, y in zip(v._a.reshape(-1), snap[k], strict=True)])
+            ob = C.prove(f'{tag}[{dt}]: {k} not written, value and unit unchanged', C.B.const(v._buf.id not in written) & same)
+            obs.append(ob_dict(ob))
+            if ob.status != 'discharged':
+                cands.append(('C04:mutation', {**case, 'dtype': dt}, f'{k} is modified when the wavelength is given in {lam_unit}'))
+        ran = ran or any(p.exc is None and not p.inconclusive for p in paths)
+    ob = C.prove(f'{tag}: some path returns', C.B.const(ran))
+    obs.append(ob_dict(ob))
+    return {'obligations': obs, 'candidates': cands, 'paths': 1}
+
+
 def job_limits(job, seed):
     """(vi) limits and monotonic sign from the construction (abstract lemma over p=b2.b1^, q=b2.ey, n=|b2|^2, delta)."""
     from symex import core as C
@@ -388,6 +452,8 @@ def run(chk):
     shimval.validate(chk, 'gravity', 40 if chk.tier == 'quick' else 240)
     run_jobs(chk, job_orth, [(d, v) for d in ['float64', 'float32'] for v in ('orth', 'refl')])
     run_jobs(chk, job_refl_guard, [0])
+    run_jobs(chk, job_alias, [(e, g_, u) for e in ('scattering_angles_with_gravity', 'scattering_angle_in_yz_plane') for g_ in ('perpendicular', 'tilted') for u in ('m', 'cm')
+                              if not (e == 'scattering_angle_in_yz_plane' and g_ == 'tilted') and not (g_ == 'tilted' and u == 'cm')])
     run_jobs(chk, job_limits, [0])
     chk.bounds = {'shapes': 'scalar operands (kernels element-wise)', 'orientation': 'b1, b2, g arbitrary real vectors (generic path); '
                   'b1 = g x w for the perpendicular case (all b1 with g.b1 = 0)', 'wavelength': '>= 0, float32/float64, symbolic unit scale'}
@@ -434,6 +500,31 @@ def replay_real(case):
         x = mp.sqrt(sum((a + b) ** 2 for a, b in zip(u, v, strict=True)))
         return 2 * mp.atan2(y, x), mp.atan2(dot(b2p, ey), dot(b2p, ex)), mp.atan2(abs(dot(b2p, ey)), dot(b2p, ez))
 
+    if case.get('kind') == 'alias':
+        f = getattr(rb, case['entry'])
+        bu = case['beam_unit']
+        lam_unit = {'m': 'm', 'cm': '10*m'}[bu]
+        for trial in range(6):
+            g = np.array([0.0, -9.81, 0.0])
+            b1 = np.array([0.0, 0.0, 12.0]) if case['geometry'] == 'perpendicular' else np.array([0.0, 0.4, 12.0])
+            b2 = rng.normal(size=(3, 3)) * 3 + [0, 0, 4.0]
+            for dt_ in ('float64', 'float32'):
+                args = dict(incident_beam=sc.vector(b1, unit='m').to(unit=bu), scattered_beam=sc.vectors(dims=['det'], values=b2, unit='m').to(unit=bu) if trial % 2 else sc.vector(b2[0], unit='m').to(unit=bu),
+                            wavelength=sc.array(dims=['wavelength'], values=[1.5e-10, 4e-10], unit='m').to(unit=lam_unit).astype(dt_), gravity=sc.vector(g, unit='m/s^2'))
+                keep = {k: v.copy() for k, v in args.items()}
+                try:
+                    first = f(**args)
+                except Exception as e:  # noqa: BLE001
+                    bad.append(f'raises {type(e).__name__}: {e}'[:200])
+                    continue
+                for k, v in args.items():
+                    if not sc.identical(v, keep[k]):
+                        bad.append(f'{case["entry"]}: argument {k} ({dt_}, given in {v.unit if k != "wavelength" else lam_unit}) was modified: {keep[k].values.tolist()} {keep[k].unit} -> {v.values.tolist()} {v.unit}')
+                if bad:
+                    break
+            if bad:
+                break
+        return {'reproduced': bool(bad), 'detail': '; '.join(bad[:2])[:600]}
     kind = case.get('kind', 'generic')
     dt = case.get('dt_lam', 'float64')
     tol = 1e-5 if dt == 'float32' else 1e-9
